@@ -33,8 +33,9 @@ def run_c13(tier, args):
     n = 200000 if tier == "quick" else 20000000
     first = first_run_seed()
     total = Batch()
+    nreg, regbad = run_regressions("C13", lambda t: os.path.join(d, "dynarr_unchecked" if "\nbuild unchecked" in t else "dynarr_checked"))
     flavours = [("checked", os.path.join(d, "dynarr_checked"), n), ("unchecked", os.path.join(d, "dynarr_unchecked"), n // 4)]
-    nviol = 0
+    nviol = regbad
     herr = False
     for name, binary, cnt in flavours:
         b = run_batch(binary, "C13", tier, first, cnt, out)
@@ -56,6 +57,7 @@ def run_c13(tier, args):
         op_counts={k: v for k, v in sorted(total.counters.items())},
         histories_per_hour=int(total.runs / max(wall, 1e-9) * 3600),
         simulated_time="n/a (no clock in the system under test); steps = operations_executed",
+        regression_plans_replayed=nreg,
         faults_injected={"none": "C13 is the fault-free control configuration of the data-view workload (DESIGN 1, 5); its capacity/hostile-prefix configuration is reported under C10"},
         configurations="4 length types x 2 byte orders x 3 value types x 3 byte types, drawn per history",
         real_components=REAL,
